@@ -1,0 +1,13 @@
+//go:build verif
+
+package updown
+
+// VerifBalance exposes balance to the verification harness.
+func VerifBalance(sizetotal int, sizeIdeal [4]int, sizeObserved [4]int, nofill bool) [4]int {
+	return balance(sizetotal, sizeIdeal, sizeObserved, nofill)
+}
+
+// VerifCheckArgs exposes checkArgs to the verification harness.
+func VerifCheckArgs(sizetotal, sizeup, sizedown, sizeside, sizesame, distall, distup, distdown, distside, distpush int) ([4]int, [4]int, error) {
+	return checkArgs(sizetotal, sizeup, sizedown, sizeside, sizesame, distall, distup, distdown, distside, distpush)
+}
